@@ -64,6 +64,46 @@ let params s = match ints_of_hex s with
   | [nc; cs; p0; p1] -> (nc, cs, p0 * 256 + p1)
   | _ -> raise Bad
 
+
+(* ---- op 04: smtproute ---- *)
+let name_ok (n : int list) may_be_empty =
+  if n = [] then may_be_empty
+  else not (List.mem 47 n || List.mem 0 n) && n <> [46] && n <> [46; 46]
+let content_ok (c : int list) = List.for_all (fun x -> not (List.mem x [0; 32; 9; 35; 92; 13])) c
+let rec take_n k l = if k = 0 then ([], l) else match l with x :: r -> let (a, b) = take_n (k - 1) r in (x :: a, b) | [] -> raise Bad
+let rec parse_dns (b : int list) = match b with
+  | [] -> []
+  | l :: r ->
+      let (name, r) = take_n l r in
+      if List.mem 0 name then raise Bad;
+      (match r with
+       | c :: r -> let (ad, r) = take_n (16 * c) r in
+                   (List.map n_of_int name, List.map (List.map n_of_int) (chunks 16 ad)) :: parse_dns r
+       | [] -> raise Bad)
+let parse_file (s : string) =
+  match ints_of_hex s with
+  | l :: r -> let (name, content) = take_n l r in
+              if not (name_ok name false) || not (content_ok content) then raise Bad;
+              (List.map n_of_int name, List.map n_of_int content)
+  | [] -> raise Bad
+let parse_route_case remhost dnsf flagsf files =
+  let rh = ints_of_hex remhost in
+  if not (name_ok rh true) then raise Bad;
+  let dns = parse_dns (ints_of_hex dnsf) in
+  let (flags, content) = match ints_of_hex flagsf with f :: c -> (f, c) | [] -> raise Bad in
+  if not (content_ok content) then raise Bad;
+  let fl = List.map parse_file files in
+  let rec dup = function [] -> false | (n, _) :: r -> List.exists (fun (m, _) -> m = n) r || dup r in
+  if dup fl then raise Bad;
+  ({ dir_exists = flags land 2 <> 0; dir_files = fl;
+     routes_file = (if flags land 1 <> 0 then Some (List.map n_of_int content) else None);
+     dns_table = dns }, List.map n_of_int rh)
+let show_route = function
+  | RouteFatal -> "FATAL"
+  | RouteOther -> "UNMODELLED"
+  | Route (None, p) -> Printf.sprintf "ROUTE %d NONE" (int_of_n p)
+  | Route (Some al, p) -> Printf.sprintf "ROUTE %d %s" (int_of_n p) (hex_of_bytes (List.concat al))
+
 let crashy f = function
   | Ok x -> f x
   | Crash _ -> "CRASH"
@@ -82,6 +122,9 @@ let model fs =
       let l = List.map entry_of_hex es in
       if l = [] then raise Bad;
       crashy (show_list "OK") (filter_my_ips fail il l)
+  | "04" :: remhost :: dnsf :: flagsf :: files ->
+      let (cfg, rh) = parse_route_case remhost dnsf flagsf files in
+      crashy show_route (smtproute cfg rh)
   | "05" :: par :: orc :: ifs :: es ->
       let (nc, cs, port) = params par in
       let (fail, il) = ifaces_of_hex ifs in
@@ -171,6 +214,14 @@ let spec fs obs =
            b2s (ok && List.length outs = nc
                 && spec_ok_C20_targets (n_of_int port) fail il l o
                      (List.map entry_of_hex l1) (List.map entry_of_hex l2) outs)
+       | _ -> "bad")
+  | "04" :: remhost :: dnsf :: flagsf :: files ->
+      let (cfg, rh) = parse_route_case remhost dnsf flagsf files in
+      if not (pre_C20_route cfg rh) then "pre" else
+      obs_bad (fun () -> match obs with
+       | ["FATAL"] -> b2s (spec_ok_C20_route cfg rh RouteFatal)
+       | ["ROUTE"; p; "NONE"] -> b2s (spec_ok_C20_route cfg rh (Route (None, n_of_int (int_of_string p))))
+       | ["ROUTE"; p; a] -> b2s (spec_ok_C20_route cfg rh (Route (Some (List.map (List.map n_of_int) (chunks 16 (ints_of_hex a))), n_of_int (int_of_string p))))
        | _ -> "bad")
   | _ -> "pre"
   with Bad | Failure _ | Not_found | Invalid_argument _ -> "pre"
